@@ -516,6 +516,13 @@ def decide_standard(ctx, corrs, finding_texts=None, require_flag_for_verdict=Tru
             else:
                 ctx.known_hits.append((fid, finding_texts.get(fid) or known[fid].get("what", fid)))
         else:
+            if r.verdict == "undetermined" and fid not in verdict_findings:
+                # an unrecognised code shape makes the driver run with a pessimistic fact value; a line it flags
+                # on which implementation and model agree is then NOT evidence of a violation (the reply may be
+                # the same for the good value).  The undetermined verdict is reported on its own; concrete
+                # failing inputs must come from the independent Spec oracle.
+                ctx.notes.append("flag %s ignored: facts undetermined" % fid)
+                continue
             if rep is not None:
                 ctx.violation("finding %s: the implementation reproduces a Spec violation predicted by the model" % fid, rep, tag=fid)
             else:
